@@ -274,7 +274,7 @@ fn cli_defaults(ctx: &mut Ctx) {
             };
             n += 1;
             let text = String::from_utf8_lossy(&out.stdout).to_string();
-            let ok = out.status == 0 && if extra.is_empty() { text == src } else { text.trim() == "[]" };
+            let ok = out.status == 0 && if extra.is_empty() { text == src } else { matches!(serde_json::from_str::<Value>(&text), Ok(Value::Array(a)) if a.is_empty()) };
             if !ok {
                 ctx.failure = Some(Failure { broken: false, sub: "cli-no-target".into(), case: json!({"args": extra, "stdin": src, "expect_stdout": if extra.is_empty() { src.clone() } else { "[]".to_string() }}), tape: None, message: format!("chiritori {:?} without any target option on {:?}: exit {} output {:?}; with an empty target set no removal-marker may be removed or listed (defaults shown by --help: {:?})", extra, src, out.status, text, defaults) });
                 return;
@@ -319,7 +319,8 @@ pub fn replay(sub: &str, case: &Value, obs: &mut Obs) -> Result<Verdict, String>
             let expect = case["expect_stdout"].as_str().unwrap_or("").to_string();
             let out = run_cli(&args, Some(stdin.as_bytes()), &[], None)?;
             let text = String::from_utf8_lossy(&out.stdout).to_string();
-            if out.status != 0 || text.trim() != expect.trim() {
+            let same = if expect.trim() == "[]" { matches!(serde_json::from_str::<Value>(&text), Ok(Value::Array(a)) if a.is_empty()) } else { text == expect };
+            if out.status != 0 || !same {
                 Ok(Verdict::Fail(format!("chiritori {args:?} on {stdin:?}: exit {} output {text:?}, expected {expect:?}", out.status)))
             } else {
                 Ok(Verdict::Pass)
